@@ -5,3 +5,4 @@ pub mod fw;
 pub mod imgs;
 pub mod targets;
 pub mod texts;
+pub mod webcolors;
